@@ -412,6 +412,8 @@ func runLiterals(r *core.Run, cases []litCase, cfgs []config) {
 				detail := map[string]interface{}{"case": c, "input": pg.src, "config": cf, "expected_value": in.Val}
 				if c.Family == "str" {
 					detail["contexts"] = []litCtx{litContexts[pg.ctx]}
+					// the directive-position context with the value `use strict` spelled with an escape (not the directive)
+					key["escaped_use_strict_directive"] = pg.ctx == "dir" && !c.UseStrict && hexUnits(c.Units) == "0075.0073.0065.0020.0073.0074.0072.0069.0063.0074"
 				}
 				if o.err != "" {
 					key["check"] = "accepts-valid-input"
